@@ -246,6 +246,70 @@ Section Entry.
   Definition weights_ok (g : gstate T A) (weighted : bool) : Prop :=
     weighted = true -> forall e, In e (get_all_edges g) -> exists z, ew e = Some z /\ (0 <= z)%Z.
 
+  (* the guard of louvain_partitions (repair of F23) against the domain: it is false on the domain,
+     and where it is false every REAL weight is non-negative *)
+  Lemma has_negative_weight_true_iff : forall (g : gstate T A),
+    has_negative_weight g = true <-> exists e z, In e (get_all_edges g) /\ ew e = Some z /\ (z < 0)%Z.
+  Proof.
+    intro g. unfold has_negative_weight. rewrite existsb_exists. split.
+    - intros [e [He Hn]]. unfold weight_negb in Hn. destruct (ew e) as [z|] eqn:Ez; [|discriminate].
+      apply Z.ltb_lt in Hn. exists e, z. auto.
+    - intros [e [z [He [Ez Hz]]]]. exists e. split; [exact He|]. unfold weight_negb. rewrite Ez.
+      apply Z.ltb_lt. exact Hz.
+  Qed.
+
+  Lemma has_negative_weight_false : forall (g : gstate T A),
+    has_negative_weight g = false -> forall e z, In e (get_all_edges g) -> ew e = Some z -> (0 <= z)%Z.
+  Proof.
+    intros g H e z He Ez. destruct (Z.ltb z 0) eqn:El; [|apply Z.ltb_ge in El; exact El].
+    apply Z.ltb_lt in El. assert (Ht : has_negative_weight g = true).
+    { apply has_negative_weight_true_iff. exists e, z. auto. }
+    congruence.
+  Qed.
+
+  Lemma weights_ok_guard_false : forall (g : gstate T A) weighted,
+    weights_ok g weighted -> negative_weight_guard g weighted = false.
+  Proof.
+    intros g weighted Hwok. unfold negative_weight_guard. destruct weighted; [|reflexivity]. cbn [andb].
+    destruct (has_negative_weight g) eqn:E; [|reflexivity]. exfalso.
+    apply has_negative_weight_true_iff in E. destruct E as [e [z [He [Ez Hz]]]].
+    destruct (Hwok eq_refl e He) as [z' [Ez' Hz']]. rewrite Ez in Ez'. inversion Ez'. subst z'. lia.
+  Qed.
+
+  (* conversely: guard false + every edge has a weight (when weighted) = the domain *)
+  Lemma guard_false_weights_ok : forall (g : gstate T A) weighted,
+    negative_weight_guard g weighted = false ->
+    (weighted = true -> forall e, In e (get_all_edges g) -> exists z, ew e = Some z) ->
+    weights_ok g weighted.
+  Proof.
+    intros g weighted Hg Hreal Hw e He. subst weighted. cbn [negative_weight_guard andb] in Hg.
+    destruct (Hreal eq_refl e He) as [z Ez]. exists z. split; [exact Ez|].
+    exact (has_negative_weight_false g Hg e z He Ez).
+  Qed.
+
+  (* the guard answers before anything else is computed: every fuel, table, resolution, threshold *)
+  Theorem louvain_negative_weights_rejected : forall lf sf (g : gstate T A) weighted res thr perms,
+    weighted = true -> (exists e z, In e (get_all_edges g) /\ ew e = Some z /\ (z < 0)%Z) ->
+    louvain_partitions_t teqb tltb lf sf g weighted res thr perms = Err InvalidArgument /\
+    louvain_partitions teqb tltb lf sf g weighted res thr perms = Err InvalidArgument /\
+    louvain_communities teqb tltb lf sf g weighted res thr perms = Err InvalidArgument.
+  Proof.
+    intros lf sf g weighted res thr perms Hw Hneg. apply has_negative_weight_true_iff in Hneg.
+    assert (Ht : louvain_partitions_t teqb tltb lf sf g weighted res thr perms = Err InvalidArgument).
+    { unfold louvain_partitions_t, negative_weight_guard. rewrite Hw, Hneg. reflexivity. }
+    assert (Hp : louvain_partitions teqb tltb lf sf g weighted res thr perms = Err InvalidArgument).
+    { unfold louvain_partitions. rewrite Ht. reflexivity. }
+    split; [exact Ht|]. split; [exact Hp|]. unfold louvain_communities. rewrite Hp. reflexivity.
+  Qed.
+
+  (* and ONLY then: InvalidArgument is returned by nothing else in the model *)
+  Lemma louvain_guard_cases : forall lf sf (g : gstate T A) weighted res thr perms,
+    negative_weight_guard g weighted = true ->
+    louvain_partitions_t teqb tltb lf sf g weighted res thr perms = Err InvalidArgument.
+  Proof.
+    intros lf sf g weighted res thr perms Hg. unfold louvain_partitions_t. rewrite Hg. reflexivity.
+  Qed.
+
   (* what the first working graph and the constant m are *)
   Lemma first_graph : forall (g : gstate T A) weighted gu m,
     WF teqb tltb g -> weights_ok g weighted ->
@@ -308,6 +372,7 @@ Section Entry.
         chain (fun a b => Qm a <= Qm b) levels.
   Proof.
     intros lf sf g weighted res thr perms ls tie W Hwok Hres H. unfold louvain_partitions_t in H.
+    destruct (negative_weight_guard g weighted); [discriminate|].
     apply bind_ok in H. destruct H as [gu [Hgu H]].
     apply bind_ok in H. destruct H as [mod0 [_ H]].
     apply bind_ok in H. destruct H as [m [Hsz H]].
